@@ -446,6 +446,7 @@ def run_normals(case, out):
     ok, ang = call(out, "normals_to_euler_angles", lambda: geom.normals_to_euler_angles(inp, output_order=case["order"]))
     if not ok:
         return
+    ang_raw = ang
     ang = np.asarray(ang, float)
     if not out.check(ang.shape == (n, 3) and bool(np.all(np.isfinite(ang))), "n2e:shape_or_nan", ang.shape):
         return
@@ -454,6 +455,13 @@ def run_normals(case, out):
     else:
         e = ang
     out.check(keep_in.equals(inp) if hasattr(inp, "equals") else np.array_equal(keep_in, inp), "n2e:input_modified", "")
+    if case["order"] != "zzx":
+        # composition: the angles exactly as returned (whatever their memory layout) go back through euler_angles_to_normals
+        okc, back = call(out, "euler_angles_to_normals(normals_to_euler_angles)", lambda: geom.euler_angles_to_normals(ang_raw))
+        if okc:
+            back = np.asarray(back, float).reshape(-1, 3)
+            out.check(back.shape == unit.shape and bool(np.abs(back - unit).max() <= 1e-9), "n2e:composition_with_euler_angles_to_normals_not_the_unit_normal",
+                      lambda: f"{back[:2].tolist()} vs {unit[:2].tolist()}")
     z = oracle.R_cc_batch(e)[:, :, 2]
     err = np.abs(z - unit).max(axis=1)
     bad = err > 1e-9
